@@ -24,7 +24,9 @@ fn do_cli_res(ctx: &mut Ctx, f: &[BigInt], g: &[BigInt]) {
     if f.is_empty() || g.is_empty() {
         v = match v { 1 | 2 => 0, 5 => 3, x => x };
     }
-    let cfg = format!("to_find = ['resultant']\n[input]\npolynomials = {}\n", toml_polys(&[f, g], v));
+    // `discriminant` of a zero polynomial panics: only in front of a non-zero first polynomial
+    let before: &[&str] = if f.iter().all(|c| c.is_zero()) { &["prime-decomposition"] } else { &["discriminant", "prime-decomposition"] };
+    let cfg = format!("to_find = {}\n[input]\npolynomials = {}\n", to_find_list("resultant", before, v), toml_polys(&[f, g], v));
     if let Some(out) = run_cli(&cfg) {
         let ans = if out.starts_with("panic") { out } else { json_field(&out, "resultant").unwrap_or_else(|| "noanswer".into()) };
         ctx.emit("cli.res", &[show_ints(f), show_ints(g)], ans);
